@@ -18,7 +18,8 @@ META = {
     "text": "TLC enumerates the complete class product (cap set/unset x codec token {none,zstd,gzip,identity,unknown,"
             "disabled} x wire size vs cap x decoded size vs cap {below,at,above,bomb} x size declaration {honest,"
             "absent,lying low,lying high within cap,lying high over cap} x integrity {ok,corrupt,truncated} x one/many "
-            "frames x route {unary,init,exchange,upload-url} x method name {plain, health-prefixed, health} x transfer "
+            "frames x server configuration {default, compression_level=None (decode-only), level 22, zstd disabled} x route "
+            "{unary,init,exchange,upload-url} x method name {plain, health-prefixed, health} x transfer "
             "{Content-Length, chunked}) restricted to the consistent rows, with the set of admissible outcomes per row "
             "and the table-sanity invariants; each row is concretised into several real requests (exact boundary sizes "
             "cap-1/cap/cap+1 obtained by padding zstd frames with skippable frames and gzip members with FEXTRA, "
@@ -292,7 +293,7 @@ class Crafter:
 
 
 def concretise(case: dict, cr: Crafter, variant: int):
-    """abstract row -> (capv, Content-Encoding header or None, wire body, client's uncompressed bytes, disabled, path)."""
+    """abstract row -> (capv, Content-Encoding header or None, wire body, client's uncompressed bytes, server configuration, path)."""
     rng = cr.rng
     codec, cap, enc, dec, decl, integ = case["codec"], case["cap"], case["enc"], case["dec"], case["decl"], case["integ"]
     boundary = variant == 0
@@ -310,11 +311,11 @@ def concretise(case: dict, cr: Crafter, variant: int):
         # "none" = no coding named: the header is absent, or present with an empty / blank value
         hdr = (rng.choice([None, None, "", " "]) if codec == "none" else rng.choice(SPELL["identity"]) if codec == "identity"
                else rng.choice(UNKNOWN))
-        return capv, hdr, body, plain, False, path
+        return capv, hdr, body, plain, case["srv"], path
     if codec == "disabled":
         body = U.zstd_frame(plain, sized=True)
         capv = 0 if cap == "none" else rel_cap(len(body), enc)
-        return capv, rng.choice(SPELL["zstd"]), body, plain, True, path
+        return capv, rng.choice(SPELL["zstd"]), body, plain, case["srv"], path
     # zstd / gzip
     key = ("bomb", codec) if bomb else None
     if cap == "none":
@@ -350,7 +351,7 @@ def concretise(case: dict, cr: Crafter, variant: int):
         rel = "lt" if len(body) < capv else "eq" if len(body) == capv else "gt"
         if rel != enc:
             raise Skip("wire size class not reached")
-    return capv, rng.choice(SPELL[codec]), body, plain, False, path
+    return capv, rng.choice(SPELL[codec]), body, plain, case["srv"], path
 
 
 # ------------------------------------------------------------------------------------------------ sandbox worker
@@ -374,21 +375,22 @@ def _worker(conn, bomb_bytes: int) -> None:
         msg = conn.recv()
         if msg is None:
             break
-        capv, disabled, hdr, body, plain, transfer, measure, path = msg
+        capv, srv, hdr, body, plain, transfer, measure, path = msg
         if plain is None:
             if bomb_plain is None:
                 bomb_plain = U.echo_body(server, bomb_bytes, fill=b"\x00")
             plain = bomb_plain
-        k = (capv, disabled)
+        k = (capv, srv)
         if k not in apps:
             if len(apps) > 300:
                 apps.clear()
             old = os.environ.pop("VGI_HTTP_DISABLE_ZSTD", None)
-            if disabled:
+            if srv == "nozstd":
                 os.environ["VGI_HTTP_DISABLE_ZSTD"] = "1"
+            extra = {"none": {"compression_level": None}, "l22": {"compression_level": 22}}.get(srv, {})
             try:
                 apps[k] = make_wsgi_app(server, token_key=b"k" * 32, max_request_bytes=(capv if capv else None),
-                                        upload_url_provider=_Provider())
+                                        upload_url_provider=_Provider(), **extra)
             finally:
                 os.environ.pop("VGI_HTTP_DISABLE_ZSTD", None)
                 if old is not None:
@@ -474,7 +476,7 @@ def run(ctx: Ctx) -> None:
     consts = {"Chunk": CHUNK, "Slack": SLACK}
     invs = ["NeverEmpty", "OnlyClientErrors", "CleanBodiesPass", "OversizeNeverPasses", "UnknownNeverPasses",
             "DamagedNeverPasses", "ManyFramesLikeOne", "NoCapNo413", "IdentityIsTransparent", "SingleFaultExact",
-            "TransferIrrelevant", "RouteIrrelevant"]
+            "TransferIrrelevant", "RouteIrrelevant", "ServerConfigIrrelevant"]
     cases = U.enumerate_split(ctx, "httpgate", "Decode", constants=consts, invariants=invs)
     ctx.exhaustive = True
     ctx.rule = ("case = consistent row of Decode!Space (cap, codec token, wire size class, decoded size class, size "
@@ -489,7 +491,8 @@ def run(ctx: Ctx) -> None:
                "what reaches the RPC layer is captured by wrapping _resources._get_request_stream",
                "chunked transfer goes through waitress on 127.0.0.1 (which de-chunks and sets CONTENT_LENGTH)",
                f"bomb = {bomb_bytes >> 20} MiB of decoded data; allocation slack {SLACK} bytes on top of cap+chunk",
-               "'disabled' = zstd with VGI_HTTP_DISABLE_ZSTD=1 at app construction",
+               "server configurations: compression_level omitted / None / 22, and VGI_HTTP_DISABLE_ZSTD=1 at app construction "
+               "('disabled' = a zstd body sent to the latter)",
                "the real code runs in a forked worker process so that a request that never returns can be reported")
 
     server, _impl = U.build_server()
@@ -527,13 +530,13 @@ def run(ctx: Ctx) -> None:
                         skipped[str(e)] = skipped.get(str(e), 0) + 1
                 if built is None:
                     continue
-                capv, hdr, body, plain, disabled, path = built
+                capv, hdr, body, plain, srv, path = built
                 if variant == "big":
                     big_rows += 1
                 done += 1
                 measure = case["dec"] == "bomb" or case["decl"] == "high_over"
                 is_bomb = case["dec"] == "bomb"
-                msg = (capv, disabled, hdr, body, None if is_bomb else plain, case["transfer"], measure, path)
+                msg = (capv, srv, hdr, body, None if is_bomb else plain, case["transfer"], measure, path)
                 o = box.call(msg, TIMEOUT_S * (4 if is_bomb else 1))
                 if o is None:                                       # confirm in a fresh worker, three times as patient
                     o = box.call(msg, 3 * TIMEOUT_S * (4 if is_bomb else 1))
@@ -559,7 +562,7 @@ def run(ctx: Ctx) -> None:
         for cl in clauses:
             ctx.violation(cl, {"codec": c["codec"], "cap": c["cap"], "enc": c["enc"], "dec": c["dec"], "decl": c["decl"],
                                "integ": c["integ"], "frames": c["frames"], "transfer": c["transfer"],
-                               "route": c["route"], "mname": c["mname"],
+                               "route": c["route"], "mname": c["mname"], "srv": c["srv"],
                                "status": o["obs"]["status"], "delivered_intact": o["obs"]["equal"],
                                "no_response": o["_hang"]},
                           {"row": c, "admissible": o["_e"], "concrete": o["_x"], "observed": o["obs"]})
